@@ -21,7 +21,7 @@ RULE = ('Hypothesis point sets (2-40 points) from labelled families: clusters, s
 RULE += '  Also: linking lengths 1e-7 .. 87 deg and exactly 0 (bit-identical positions), points exactly on / 1 ulp from a pole, slice-edge family, wide strips with > 32767 RA chunks, integer coordinate arrays.'
 ASSUMPTIONS = ['chunksize >= 4 x linking length is enforced by spheregroup itself; the generator also bounds the grid to <= 2e4 cells',
                'separations within 1e-7 relative of the linking length may link or not',
-               '|Dec| <= 90 including points exactly on a pole (families pole-exact / pole-near), RA in [0,360)', 'linking lengths from 1e-7 deg (sub-milliarcsecond) up; the reference separations are exact to ~1e-16 rad, i.e. 1e-7 relative at 1e-7 deg, inside the band']
+               '|Dec| <= 90 including points exactly on a pole (families pole-exact / pole-near), RA in [0,360] (360.0 itself is generated: the same meridian as 0)', 'linking lengths from 1e-7 deg (sub-milliarcsecond) up; the reference separations are exact to ~1e-16 rad, i.e. 1e-7 relative at 1e-7 deg, inside the band']
 
 
 def components(adj):
@@ -152,6 +152,11 @@ def case_strategy(draw):
         decs = [d0 + 0.4 * L * draw(G.unitf) for _ in ras]
         order = draw(st.permutations(list(range(len(ras)))))
         return dict(family='wide-strip', ra=[ras[i] for i in order], dec=[decs[i] for i in order], L=L, chunksize=4.0 * L)
+    if pts['family'] in ('allsky', 'polar', 'pole-exact', 'pole-near', 'seam') and draw(st.integers(0, 3)) == 0:
+        # a right ascension given as exactly 360.0 (the same meridian as 0.0), next to points on either side of it
+        k = draw(st.integers(0, len(pts['ra1']) - 1))
+        pts['ra1'][k] = 360.0
+        pts['family'] += '+ra360'
     cs = draw(st.sampled_from([None, None, 4.0, 4.0, 6.0, 10.0, 30.0] if pts['family'] not in ('randomwalk', 'polylines', 'slice-edge') else [4.0, None, 4.0, 5.0, 8.0]))
     if pts['family'] == 'slice-edge':
         cs = None
